@@ -159,6 +159,10 @@ def run(c):
                 c.count()
                 continue
             ins = o["inputs"]
+            for k in o.get("unstable") or []:
+                c.fail("oracle", "a compiled pattern answers differently on the same input the second time (the answer depends on what was matched before)",
+                       input={"pattern": repr(pat), "input": repr(b64(ins[k])), "matcher": o.get("kind")},
+                       observed={"first": o["tm"][k] == "1", "second": o["tm"][k] != "1"}, expected={"regexp.Match": o["re"][k] == "1"})
             fast = o.get("kind") not in ("regexp", None, "")
             for k, (a, b, r) in enumerate(zip(o["tm"], o["tms"], o["re"])):
                 c.count()
@@ -201,6 +205,12 @@ def run(c):
             if not o["got"]:
                 c.fail("oracle", "Load accepts a Text.Matches pattern it must reject", input={"pattern": repr(b64(o["pat"]))},
                        observed="loaded", expected="load error")
+        ek = next((o["kinds"] for o in obs if o["k"] == "engine-kinds"), None)
+        if ek is not None:
+            c.coverage["engine_text_matcher_kinds"] = ek
+            missing = sorted(k for k in kinds if k not in ("-", "", None) and not ek.get(k))
+            c.obligation("coverage: the engine-level Text.Matches runs reach every matcher kind the pattern-level run saw", not missing,
+                         "not reached: %s" % missing)
         c.coverage.setdefault("matcher_kinds", {})
         for k, v in kinds.items():
             c.coverage["matcher_kinds"][k] = c.coverage["matcher_kinds"].get(k, 0) + v
